@@ -52,7 +52,7 @@ SDS_KINDS = ['arg', 'argTmp', 'shell', 'defStr', 'defPath', 'defCd', 'file', 'fi
 SYM_KINDS = ['strArg', 'listArg', 'listDef', 'shellStr', 'envStr', 'fileStr', 'progSym', 'timeoutInt', 'cleanupArg', 'exitCode',
              'numLines', 'lineNum', 'lineNums', 'equalsStr', 'matchesRx', 'pathExists', 'textMatcher', 'textTransformer',
              'intMatcher', 'lineMatcher', 'textMatcherAnd', 'intMatcherOr', 'lineMatcherAnd', 'textTransformerSeq',
-             'defStr', 'hereDoc', 'replaceStr', 'runArg', 'fileMatcher', 'filesMatcher']
+             'defStr', 'hereDoc', 'replaceStr', 'runArg', 'fileMatcher', 'filesMatcher', 'pathRelDef', 'pathRelDef2']
 # (finding D13, fixed in /repo: the range of `filter -line-nums` in an instruction of a suite kept the value of the
 # first case of the run - the deviation LineNumsRangeCached of the specification, which TLC must refute in every run)
 # deviation -> (the invariant TLC must refute, the family that shows it)
@@ -161,8 +161,8 @@ def own_definitions(n):
         return ['def line-matcher V_S = line-num == 1', 'def text-matcher V_N = is-empty', 'def text-matcher V_L = is-empty',
                 'def line-matcher V_T = line-num == 1', 'def text-matcher V_RX = is-empty', 'def line-matcher V_P = line-num == 1',
                 'def string V_TM = is-empty', 'def string V_TT = strip', 'def string V_IM = 1', 'def string V_LM = 1',
-                'def string V_R = true', 'def string V_FM = x', 'def string V_FSM = x',
-                'file -rel-tmp own.txt = s6', 'file -rel-tmp own6.txt = x']
+                'def string V_R = true', 'def string V_FM = x', 'def string V_FSM = x', 'def string V_D = x',
+                'file -rel-tmp own.txt = s6', 'file -rel-tmp own6.txt = x', 'dir -rel-tmp d6']
     return ['def string V_S = s%d' % n,
             'def string V_N = %s' % (n if n != 4 else 'x'),
             'def list V_L = a%d b%d' % (n, n),
@@ -176,6 +176,9 @@ def own_definitions(n):
             'def program V_R = %% sh @HOME@/val2.sh s%d' % n,
             'def file-matcher V_FM = contents equals s%d' % n,
             'def files-matcher V_FSM = any file : name own%d.txt' % n,
+            'def path V_D = -rel-tmp d%d' % n,
+            'dir -rel-tmp d%d' % n,
+            'file -rel-tmp d%d/m.txt = x' % n,
             'file -rel-tmp own.txt = s%d' % n,
             'file -rel-tmp own%d.txt = x' % n]
 
@@ -225,6 +228,8 @@ SYM_ASSERT = {
     'textTransformerSeq': ['contents -rel-tmp own.txt : -transformed-by ( identity | V_TT ) equals X'],
     'fileMatcher': ['exists -rel-tmp own.txt : V_FM'],
     'filesMatcher': ['dir-contents -rel-tmp . : V_FSM'],
+    'pathRelDef': ['def path K_B = -rel V_D m.txt', 'exists @[K_B]@ : type file'],
+    'pathRelDef2': ['def path K_C1 = -rel V_D .', 'def path K_C2 = -rel K_C1 m.txt', 'exists @[K_C2]@ : type file'],
 }
 
 SDS_ASSERT = {
